@@ -8,7 +8,8 @@ import (
 )
 
 var (
-	changeLogRegex = `^(\w*)(?:\((.*)\))?: (.*)$`
+	// type, optional (scope), optional breaking-change mark: feat(api)!: drop v1
+	changeLogRegex = `^(\w*)(?:\((.*)\))?!?: (.*)$`
 )
 
 // high fix
